@@ -436,7 +436,7 @@ class PhaseField(_IModel):
         tic = Tic()
 
         C = self.__material.C
-        if self.isHeterogeneous:
+        if self.__material.isHeterogeneous:
             C_e_pg = FeArray.broadcast(C, Ne, nPg, tensor_ndim=2)
         else:
             C_e_pg = FeArray.asfearray(C, True)
@@ -579,7 +579,7 @@ class PhaseField(_IModel):
         Ne, nPg = Epsilon_e_pg.shape[:2]
 
         C = material.C
-        if self.isHeterogeneous:
+        if material.isHeterogeneous:
             C_e_pg = FeArray.broadcast(C, Ne, nPg, tensor_ndim=2)
         else:
             C_e_pg = FeArray.asfearray(C, True)
